@@ -46,11 +46,11 @@ PROPS["C06"] = {
 
 PROPS["C02"] = {
     "pkg": "sess", "engine": "seqsim", "env": {"SIM_PROP": "C02"},
-    "legs": ["passive", "passive", "passive", "active", "active", "chan-replay", "chan-restart"],
-    "runs": {"quick": 7000, "thorough": 400000},
+    "legs": ["passive", "passive", "passive", "active", "active", "chan-replay", "chan-restart", "chan-sess-concurrent"],
+    "runs": {"quick": 8000, "thorough": 400000},
     "budget": {"quick": 220, "thorough": 2400},
     "rule": "session legs (passive, active): one run = one adversary schedule (10-80 actions) over 2-4 real Session pairs (A-B pairs incl. role swaps, unrelated C-D): deliver/drop/reorder/replay/cross-feed/reflect any byte string ever emitted, 8 kinds of mutation, clock jumps across expiry; leg active adds the protocol-speaking attacker of C03; "
-            "channel legs (chan-replay, chan-restart): one run = two real p2pke.Channels under the parking scheduler with 1-3 concurrent senders per side over several rekey periods (and a restart of one side), on a network that loses, duplicates, reorders and corrupts, with a replayer re-injecting any datagram ever sent (to its destination, reflected to its sender, or after its session was rotated out); "
+            "channel legs (chan-replay, chan-restart): one run = two real p2pke.Channels under the parking scheduler with 1-3 concurrent senders per side over several rekey periods (and a restart of one side), on a network that loses, duplicates, reorders and corrupts, with a replayer re-injecting any datagram ever sent (to its destination, reflected to its sender, or after its session was rotated out); leg chan-sess-concurrent: 2-4 tasks call Send concurrently on ONE established Session (interleaved at every atomic operation), oracle: counters unique, each message decrypts to its own plaintext once; "
             "non-trivial = at least one fault fired and at least one session became ready / one plaintext was delivered; distinct = distinct event traces",
     "components": {"real": ["p/p2pke Session and Channel incl. timers (all of it), f/x509, flynn/noise, x/crypto primitives"], "stub": ["wire and adversary (harness)", "clock (`now` arguments in the session legs; synctest fake clock in the channel legs)", "goroutine scheduler (channel legs)", "crypto/rand (seeded ChaCha8)"], "tier": "A"},
     "level_text": "seeded exploration of adversary action sequences against real Sessions and real Channels; oracles after every delivery (authentic: given to Send by the holder of the key the receiver reports, from the dynamically paired peer session, at most once per session / per channel object, unmodified) and over all emitted bytes at the end (counter uniqueness per session, no plaintext on the wire, sender buffers untouched)",
@@ -253,12 +253,12 @@ PROPS["C08"] = {
 }
 
 PROPS["C14"] = {
-    "pkg": "racep", "race": True, "minimise": False, "one_per_process": True,
+    "pkg": "racep", "race": True, "minimise": False, "one_per_process": True, "stall_s": 300,
     "env": {"GORACE": "halt_on_error=1 exitcode=66"},
     "legs": ["race:mem", "race:frag/mem", "race:mbapp/mem", "race:mux-string/mem", "race:askmux-string/mem", "race:p2pke/mem", "race:mbapp/p2pke/mem", "race:frag/p2pke/mem", "race:wl/mbapp/mem",
              "race:map/frag/mem", "race:kad", "race:hubs", "race:channel",
              "own:frag/sim", "own:mbapp/sim", "own:mem", "own:mbapp/mem", "own:p2pke/sim", "own:mux-varint/mux-string/sim", "own:mbapp/p2pke/sim"],
-    "runs": {"quick": 320, "thorough": 20000}, "budget": {"quick": 280, "thorough": 2400},
+    "runs": {"quick": 320, "thorough": 20000}, "budget": {"quick": 420, "thorough": 2400},
     "rule": "legs race:<stack>: one run = one seeded workload in which free-running goroutines (8 procs, Go race detector on, real clock: mutexes held across blocking hand-overs would stall a fake clock) call Tell, Ask, Receive, ServeAsk, LookupPublicKey, PublicKey, LocalAddrs, MTU and Close (twice, while traffic flows) concurrently on every node of a stack over the real in-memory swarm; callbacks checksum their message on entry and exit and write to it; legs race:kad / race:hubs / race:channel do the same for the Kademlia cache and DHT node, the hubs and queue, and a pair of P2PKE channels across rekeys; "
             "legs own:<stack>: the scheduled (replayable) C01 workload, keeping the buffer-ownership classes; non-trivial = something was delivered; distinct = distinct (stack, seed, deliveries) or scheduler decision traces",
     "components": {"real": ["every package of /repo (uninstrumented behaviour: all scheduler hooks are no-ops in the race legs)"], "stub": ["clock: real for race:<stack>, synctest fake clock for race:kad/hubs/channel and the own legs", "transport: the real in-memory swarm", "workload seeded; goroutine scheduling is NOT controlled in the race legs"], "tier": "race legs: not replayable exactly (seed + report); own legs: A"},
